@@ -98,6 +98,7 @@ type w1Cfg struct {
 	MaxTimeLagMs    int  `json:"position_max_time_lag_ms,omitempty"`
 	ExpiredSubMs    int  `json:"expired_sub_close_delay_ms,omitempty"`
 	QueueInitialCap int  `json:"queue_initial_cap,omitempty"`
+	PresDelayPm     int  `json:"presence_delay_pm,omitempty"` // per mille of AddPresence/RemovePresence calls that take simulated time (a slow presence backend)
 }
 
 // w1TimerScheduler is a Config.ClientTimerScheduler on the simulated clock: every callback
@@ -267,6 +268,7 @@ type w1World struct {
 	preRun       func(n *Node) // cluster world: install shared broker / controller before Run
 	seqSrc       *int64        // cluster world: one event counter for all nodes
 	nodeCfg      func(c *Config)
+	settling     bool // scripted activity is over: seams stop injecting delays
 }
 
 func (w *w1World) next() int64 {
@@ -858,6 +860,9 @@ func (w *w1World) setup() error {
 		// Subscribe/Unsubscribe and drop/duplicate/delay PUB/SUB deliveries
 		w.pubsub = &w1PubSub{w: w, inner: node.broker.(*MemoryBroker), subscribed: map[string]int{}}
 		node.SetBroker(w.pubsub)
+		if cfg.PresDelayPm > 0 && node.presenceManager != nil {
+			node.SetPresenceManager(&w1Presence{w: w, inner: node.presenceManager})
+		}
 	}
 	node.OnConnecting(func(ctx context.Context, e ConnectEvent) (ConnectReply, error) {
 		st := e.Transport.(*w1Transport)
@@ -1135,6 +1140,33 @@ func (b *w1PubSub) HandleLeave(ch string, info *ClientInfo) error {
 	return b.node.HandleLeave(ch, info)
 }
 
+// w1Presence is the seam between node and presence manager: the real MemoryPresenceManager
+// behind a proxy whose Add/Remove calls sometimes take simulated time (one network round
+// trip of a remote presence backend), so that a presence tick or a subscribe can be parked
+// inside the call while the connection unsubscribes, re-subscribes or closes.
+type w1Presence struct {
+	w     *w1World
+	inner PresenceManager
+}
+
+func (p *w1Presence) delay(what string) {
+	s := p.w.s
+	if pm := p.w.sc.Cfg.PresDelayPm; pm > 0 && !p.w.settling && s.Chance(pm) {
+		s.Fault("presence_" + what + "_delay")
+		s.Sleep([]time.Duration{50 * time.Microsecond, 3 * time.Millisecond, 40 * time.Millisecond, 700 * time.Millisecond}[s.Intn(4)])
+	}
+}
+func (p *w1Presence) Presence(ch string) (map[string]*ClientInfo, error) { return p.inner.Presence(ch) }
+func (p *w1Presence) PresenceStats(ch string) (PresenceStats, error)   { return p.inner.PresenceStats(ch) }
+func (p *w1Presence) AddPresence(ch string, clientID string, info *ClientInfo) error {
+	p.delay("add")
+	return p.inner.AddPresence(ch, clientID, info)
+}
+func (p *w1Presence) RemovePresence(ch string, clientID string, userID string) error {
+	p.delay("remove")
+	return p.inner.RemovePresence(ch, clientID, userID)
+}
+
 // ---------------------------------------------------------------- actors
 
 func (w *w1World) publish(ch string) {
@@ -1321,6 +1353,7 @@ func w1Run(s *simrt.Sim, script any, prop string) {
 	// the goroutine that delivers it (false alarm C04 subscribed-not-routed, seed 1 run
 	// 15334: the connection's writer was the stalled goroutine)
 	s.StopStalls()
+	w.settling = true
 	s.Pause()
 	settle := time.Duration(sc.Cfg.SettleMs) * time.Millisecond
 	if settle == 0 {
@@ -1786,6 +1819,9 @@ func w1Gen(c *simrt.Choice, prop, tier string) any {
 		cfg.ExpiredSubMs = []int{0, 500, 1000}[c.Intn(3)]
 	}
 	cfg.QueueInitialCap = []int{0, 0, 1, 2}[c.Intn(4)]
+	if prop == "C05" || prop == "C06" || prop == "C07" || prop == "C08" || prop == "C04" {
+		cfg.PresDelayPm = []int{0, 0, 100, 300}[c.Intn(4)]
+	}
 	return sc
 }
 
